@@ -2,4 +2,4 @@
    the model of x/ecocredit/genesis.ValidateGenesis on a model state.  Model file. *)
 Require Import Regen.Ledger.Types Regen.Genesis.Validators.
 
-Definition validate_state (s : state) : bool := validate_genesis s.
+Definition validate_state (s : state) : bool := validate_genesis_full s.
